@@ -2,8 +2,9 @@
    theorem statements only.
    Models: XPathSem.v - an executable REFERENCE semantics written from the W3C recommendation ([spec_flags]) with one
    switch per construct in which src/xpath.c departs from it ([impl_flags] = as coded); XPathConv.v - the conversion
-   kernels, recommendation and as coded. Proofs: XPathSemP.v, XPathConvP.v; concrete witnesses: XPathExamples.v.
-   State of the code: /repo with the XPath fixes 61e2388 .. f6e5fb8 (their switches are removed from the model).
+   kernels, recommendation and as coded; XPathLookup.v - the key lookup (condition and result) next to generic
+   evaluation. Proofs: XPathSemP.v, XPathConvP.v, XPathLookup.v; concrete witnesses: XPathExamples.v.
+   State of the code: /repo with the XPath fixes 61e2388 .. c545a4e (their switches are removed from the model).
    The 10 kLoC evaluator of xpath.c is not transcribed: it is tied to [eval_top impl_flags] by the correspondence run
    (tools/props/comps_xpath.py), and every case in which [eval_top impl_flags] differs from [eval_top spec_flags] is a
    listed deviation of libyang (known_findings.d/xpath.json). *)
